@@ -1080,7 +1080,7 @@ func genStringLit(rng *rand.Rand) string {
 // ---------------------------------------------------------------- run
 
 var c03FixedCorpus = []mutCase{
-	// regression witnesses of the repaired findings (DESIGN.md section 7 rows 1, 2) and of C03_*_before_fix
+	// regression witnesses of the repaired findings (findings.d/C03.txt fixed: lines) and of C03_*_before_fix
 	{"func 1", "corpus"}, {"func", "corpus"}, {"func\n", "corpus"}, {"func 1\nend\n", "corpus"},
 	{"x := [1]\narr := [[2] x [\"a\"]]\n", "corpus"}, {"x := [1]\nm := {a:[2] b:x c:[\"a\"]}\n", "corpus"},
 	{"a\x00b", "corpus"}, {"print 1\x00 ))) garbage \"", "corpus"}, {"\x00", "corpus"},
